@@ -9,6 +9,16 @@
 #include <nop/serializer.h>
 #include <nop/utility/stream_reader.h>
 #include <nop/utility/stream_writer.h>
+// hand-written types for trait-only facts
+namespace vf { namespace facts {
+struct LBConstArr { const std::array<int, 4> a{{1, 2, 3, 4}}; std::size_t n{2}; NOP_STRUCTURE(LBConstArr, (a, n)); };
+struct LBConstStrArr { const std::array<std::string, 3> a{}; std::uint8_t n{0}; NOP_STRUCTURE(LBConstStrArr, (a, n)); };
+struct LBArr { std::array<int, 4> a{}; std::size_t n{0}; NOP_STRUCTURE(LBArr, (a, n)); };
+struct VecIntS { std::vector<int> a; NOP_STRUCTURE(VecIntS, a); };
+struct VecStrS { std::vector<std::string> a; NOP_STRUCTURE(VecStrS, a); };
+struct ArrIntS { std::array<int, 4> a{}; NOP_STRUCTURE(ArrIntS, a); };
+struct KeyW { std::uint32_t v{0}; bool operator<(const KeyW& o) const { return v < o.v; } bool operator==(const KeyW& o) const { return v == o.v; } NOP_VALUE(KeyW, v); };
+} }
 namespace vf {
 struct FungPair {
   const char* a; const char* b; const char* rule; bool documented;
